@@ -117,6 +117,7 @@ type c18Env struct {
 	hostKind map[string]string // builtin | module | other
 	hostSet  map[string]bool
 	recNames bool // record vm.GlobalNames() after every piece (slot sessions)
+	recTabs  bool // record the COMPILER's tables after every piece, rejected ones included (table sessions)
 }
 
 func c18NewEnv(setsIP bool, opts ...risor.Option) *c18Env {
@@ -155,6 +156,10 @@ type c18Obs struct {
 	Loaded  int // number of loaded code objects (main code + bound functions)
 	Mods    int // number of entries of the import cache (vm.modules)
 	GNames  []string // vm.GlobalNames(): the root symbol table in slot order (when env.recNames)
+	// when env.recTabs: the main code object of the compiler after the piece (also after a rejected one)
+	CNames []string // compiler.Code.GlobalNames(): the root symbol table in slot order
+	Consts []string // the constants of the main code, each printed with %v
+	NNames int      // number of attribute names of the main code
 }
 
 // c18Inspect never panics (a mutated tree may leave nil elements inside containers).
@@ -327,6 +332,14 @@ func (env *c18Env) incrementalCtx(pieces []string, names []string, globalsEvery 
 		o.Stdout = buf.String()
 		if c != nil {
 			o.CodeLen = c.Code().InstructionCount()
+			if env.recTabs {
+				code := c.Code()
+				o.CNames, o.NNames = code.GlobalNames(), code.NameCount()
+				o.Consts = []string{}
+				for k := 0; k < code.ConstantsCount(); k++ {
+					o.Consts = append(o.Consts, fmt.Sprintf("%v", code.Constant(k)))
+				}
+			}
 		}
 		prev := 0
 		if i > 0 {
@@ -1132,7 +1145,12 @@ func c18_runC18(e *Env) {
 		"failing/rejected pieces in between; value, tick log, size of the import cache and integer globals after every piece against the Lean import-cache model and its Spec); " +
 		"SHADOWING sessions (top-level blocks — for headers, if/else, switch, range bodies, nested — that declare variables with the names of top-level variables; the harness " +
 		"resolves names to slots as the compiler does (checked against vm.GlobalNames after every piece) and sends the unrolled slot program to the Lean slot model; directed " +
-		"programs under every partition, random programs under sampled partitions; value and vm.Get of every name after every piece; host-supplied names declared inside blocks). " +
+		"programs under every partition, random programs under sampled partitions; value and vm.Get of every name after every piece; host-supplied names declared inside blocks); " +
+		"TABLE sessions (the constants and the root symbol table of the shared main code under ROLLBACK: pieces over integer globals whose literals are int, string and float " +
+		"constants drawn from a small pool, so that literals repeat across pieces; rejected pieces of ~16 shapes — the compile error after a fresh literal and/or after a block " +
+		"variable (if / else / for-3 header / range / switch case / nested block / function literal) that carries the NAME OF A LIVE GLOBAL — at every position, followed by " +
+		"accepted pieces that use the same literals and names; after EVERY piece, rejected ones included, the compiler's root symbol table, its constants, the outcome, the value " +
+		"and vm.Get of every name against the Lean tables model (tabs request: tabImpl / tabSpec) and the real whole program of the accepted pieces; directed sessions and random ones). " +
 		"After every piece every user global " +
 		"AND every host-supplied global (vm.Get) is compared with the whole-program evaluation. Distinct by the history text; non-trivial when the history has >= 2 pieces and the program " +
 		"uses >= 3 statement/expression forms beyond literals or nests >= 3 deep, and it gets past parsing"
@@ -1330,6 +1348,7 @@ func c18_runC18(e *Env) {
 	c18Binding(e, env)
 	c18Imports(e, setsIP)
 	c18Shadow(e, env)
+	c18Tables(e, env)
 	// a violation inside the guard (nothing known explains it) is the most telling replay: list those first
 	sort.SliceStable(e.R.SpecViolations, func(i, j int) bool {
 		a, b := e.R.SpecViolations[i], e.R.SpecViolations[j]
